@@ -128,7 +128,7 @@ func Explore(l *Loaded, c *Check, o Options) (*HarnessResult, error) {
 					s = s2
 				}
 			}
-			res := l.Prog.RunPath(c.Fn, prefix, ctx, s, interp.RunOpts{Redirect: redir, MaxDecisions: c.MaxDec, MaxConcretize: c.MaxConc, BlockIsViolation: c.OnBlock == "violation"})
+			res := l.Prog.RunPath(c.Fn, prefix, ctx, s, interp.RunOpts{Redirect: redir, MaxDecisions: c.MaxDec, MaxConcretize: c.MaxConc, BlockIsViolation: c.OnBlock == "violation", Coop: c.Sched == "coop", MaxSteps: c.MaxSteps, UnwindIsViolation: c.OnUnwind == "violation"})
 
 			mu.Lock()
 			active--
@@ -180,7 +180,7 @@ func Explore(l *Loaded, c *Check, o Options) (*HarnessResult, error) {
 				hr.Completed++
 			}
 			if o.Verbose {
-				fmt.Fprintf(os.Stderr, "  [%s] path %d trail=%s abort=%v viol=%d panic=%q\n", c.Name, hr.Paths, trailStr(res.Trail), res.Abort, len(res.Violations), res.Panic)
+				fmt.Fprintf(os.Stderr, "  [%s] path %d trail=%s steps=%d abort=%v viol=%d panic=%q\n", c.Name, hr.Paths, trailStr(res.Trail), res.Steps, res.Abort, len(res.Violations), res.Panic)
 			}
 			if o.MaxPaths > 0 && hr.Paths >= o.MaxPaths && (len(queue) > 0 || active > 0) {
 				hr.Truncated = true
@@ -255,6 +255,6 @@ func Replay(l *Loaded, c *Check, model map[string]uint64, trail []interp.Decisio
 	if model == nil {
 		model = map[string]uint64{}
 	}
-	res := l.Prog.RunPath(c.Fn, trail, ctx, nil, interp.RunOpts{Redirect: redir, Concrete: model, MaxDecisions: c.MaxDec, MaxConcretize: c.MaxConc, BlockIsViolation: c.OnBlock == "violation"})
+	res := l.Prog.RunPath(c.Fn, trail, ctx, nil, interp.RunOpts{Redirect: redir, Concrete: model, MaxDecisions: c.MaxDec, MaxConcretize: c.MaxConc, BlockIsViolation: c.OnBlock == "violation", Coop: c.Sched == "coop", MaxSteps: c.MaxSteps, UnwindIsViolation: c.OnUnwind == "violation"})
 	return res, nil
 }
